@@ -436,6 +436,91 @@ def handler(payload):
     def hx(b):
         return bytes(b).hex()
 
+    KEYS = {}
+
+    def rot_keys(fam):
+        """a deterministic-size set of root public keys of the kind the family's certificate block takes"""
+        from spsdk.crypto.keys import PrivateKeyEcc, PrivateKeyRsa, EccCurve
+        rot = get_db(fam).get_str(DatabaseManager.CERT_BLOCK, "rot_type")
+        if rot not in KEYS:
+            if rot == "cert_block_1":
+                KEYS[rot] = [PrivateKeyRsa.generate_key(key_size=2048).get_public_key() for _ in range(2)]
+            elif rot == "cert_block_21":
+                KEYS[rot] = [PrivateKeyEcc.generate_key(curve_name=EccCurve.SECP256R1).get_public_key() for _ in range(2)]
+            else:
+                KEYS[rot] = None
+        return KEYS[rot]
+
+    def apply_change(a, obj, settings2):
+        """a second batch of settings applied to a live object through the public API"""
+        k = a.kind
+        if k in PFR_KINDS:
+            obj.set_config(settings2)
+        elif k == "xmcd":
+            s2 = dict(settings2)
+            if "header" in s2:
+                obj.header.load_from_config({"header": s2.pop("header")})
+            obj.config_block.load_from_config(s2)
+        elif k == "fuses":
+            obj.load_config(a.wrap(settings2))
+        elif k == "memcfg":
+            obj.regs.load_yml_config(settings2)
+        elif k == "tz":
+            obj.customs.update(settings2)
+        else:
+            obj.registers.load_yml_config(settings2)
+
+    def history(a, c, cfg):
+        """exports repeated on ONE object, and an export after a change compared with a twin that never exported before"""
+        h = {}
+        ex = (lambda o, **kw: hx(a.export(o, **kw)))
+        o = g(lambda: a.load(cfg))
+        if "err" in o:
+            return {"load": o}
+        obj = o["ok"]
+        h["e1"] = g(lambda: ex(obj))
+        h["e2"] = g(lambda: ex(obj))
+        if a.kind in PFR_KINDS:
+            h["s1"] = g(lambda: ex(obj, add_seal=True))
+            h["s2"] = g(lambda: ex(obj, add_seal=True))
+            h["e3"] = g(lambda: ex(obj))                     # plain again after the sealed exports
+            if c.get("rotkh") is not None:
+                rk = bytes.fromhex(c["rotkh"])
+                o2 = a.load(cfg)
+                h["r1"] = g(lambda: ex(o2, rotkh=rk))
+                h["r2"] = g(lambda: ex(o2, rotkh=rk))
+                h["r_fresh"] = g(lambda: ex(a.load(cfg), rotkh=rk))
+            if c.get("keys"):
+                ks = g(lambda: rot_keys(a.fam))
+                if "ok" in ks and ks["ok"]:
+                    o3 = a.load(cfg)
+                    h["k1"] = g(lambda: ex(o3, keys=ks["ok"]))
+                    h["k2"] = g(lambda: ex(o3, keys=ks["ok"]))
+                    h["k_fresh"] = g(lambda: ex(a.load(cfg), keys=ks["ok"]))
+        if a.kind not in ("fuses",) and "ok" in h["e1"]:
+            p = g(lambda: a.parse(bytes.fromhex(h["e1"]["ok"])))
+            if "ok" in p:
+                h["p1"] = g(lambda: ex(p["ok"]))
+                h["p2"] = g(lambda: ex(p["ok"]))
+        s2 = c.get("settings2")
+        if s2 is not None:
+            ch = g(lambda: apply_change(a, obj, s2))
+            if "err" in ch:
+                h["change"] = ch
+            else:
+                h["m1"] = g(lambda: ex(obj))                 # exported, changed, exported
+                h["m2"] = g(lambda: ex(obj))
+                twin = a.load(cfg)
+                tw = g(lambda: apply_change(a, twin, s2))
+                h["twin"] = g(lambda: ex(twin)) if "ok" in tw else tw     # changed without an earlier export
+                if a.kind == "xmcd":
+                    h["m_verify_errors"] = g(lambda: int(obj.verify().has_errors))
+                if a.kind != "tz":
+                    cf = g(lambda: a.config(obj))
+                    if "ok" in cf:
+                        h["m_reload"] = g(lambda: ex(a.load(cf["ok"])))   # a fresh object loaded with the resulting configuration
+        return h
+
     def run_case(c):
         a = A(c["kind"], c["family"], c["rev"], c["sub"])
         res = {}
@@ -480,6 +565,8 @@ def handler(payload):
                 res["export2"] = g(lambda: hx(p["ok"].export()))
                 c3 = a.config(p["ok"])
                 res["export3"] = g(lambda: hx(a.load(c3).export()))
+            if c.get("history"):
+                res["history"] = history(a, c, cfg)
             return res
         regs = a.regs(obj)
         res["snap"] = g(lambda: snap(regs))
@@ -543,6 +630,8 @@ def handler(payload):
             if c.get("rotkh") is not None:
                 rk = bytes.fromhex(c["rotkh"])
                 res["rotkh_export"] = g(lambda: hx(a.load(cfg).export(rotkh=rk, draw=False)))
+        if c.get("history"):
+            res["history"] = history(a, c, cfg)
         if c.get("parse_random") is not None:
             # the area's parser on an arbitrary binary of the documented size, then export
             rb = bytes.fromhex(c["parse_random"])
